@@ -70,7 +70,7 @@ def par(ctx, fn, items, workers):
     return res
 
 
-def run_harness(ctx, binary, model, progfile, sweep_count, nshards, tag, mode="summary", only=None):
+def run_harness(ctx, binary, model, progfile, sweep_count, nshards, tag, mode="summary", only=None, files_only=False):
     """Run the structured programs and/or the sweep in nshards parallel supervisors."""
     jobs = []
     if progfile:
@@ -97,6 +97,8 @@ def run_harness(ctx, binary, model, progfile, sweep_count, nshards, tag, mode="s
         for k, v in st.items():
             if isinstance(v, int):
                 stats[k] += v
+    if files_only:
+        return outs, stats
     recs = []
     for o in outs:
         recs += read_ndjson(o)
@@ -114,8 +116,11 @@ def judge(ctx, recs, nest, chunks=1, label="judge"):
     # the order the group members index into: the model export's entry points, sorted (the harness
     # sorts them the same way when it loads the model)
     model = json.load(open(ctx.specfile("inputs_model.json")))
-    with open(ctx.specfile("inputs_eps.json"), "w") as f:
-        json.dump({k["k"]: sorted(k["eps"]) for k in model["kinds"]}, f)
+    epsf = ctx.specfile("inputs_eps.json")
+    if not os.path.exists(epsf):
+        with open(epsf + ".%d.tmp" % threading.get_ident(), "w") as f:
+            json.dump({k["k"]: sorted(k["eps"]) for k in model["kinds"]}, f)
+        os.replace(f.name, epsf)
     order = {k["k"]: sorted(k["eps"]) for k in model["kinds"]}
     for r in recs:
         if r["eps"] != order.get(r["k"]):
@@ -278,14 +283,30 @@ def run(ctx):
 
     # replay: every program on the real seeds, every entry point, both modes --------------
     sweep = 10000 if quick else 400000
-    recs, stats = run_harness(ctx, binary, model, progfile, sweep, nshards, "obs")
+    files, stats = run_harness(ctx, binary, model, progfile, sweep, nshards, "obs", files_only=True)
     ctx.log("harness: %s" % dict(stats))
     if stats["records"] == 0 or stats["summaries"] == 0:
         raise Machinery("harness produced no observations")
-    calls = 0
-    for rec in recs:
-        calls += rec["n"] * sum(len(g["e"]) for g in rec["g"])
-    applied = set(rec["i"] for rec in recs if not rec["sw"])
+
+    # U3: TLC judges the summaries, one harness output file at a time (bounded memory) -----------
+    def judge_file(item):
+        idx, path = item
+        rs = read_ndjson(path)
+        rej = judge(ctx, rs, nest, label="sum%d" % idx)
+        st = {"calls": sum(r["n"] * sum(len(g["e"]) for g in r["g"]) for r in rs),
+              "applied": set(r["i"] for r in rs if not r["sw"]),
+              "structured": sum(r["n"] for r in rs if not r["sw"]), "sweep": sum(r["n"] for r in rs if r["sw"]),
+              "summaries": len(rs), "rejected": len(rej)}
+        hit = set(x[0] for x in rej)
+        smp = [r for i, r in enumerate(rs) if not r["sw"] and r["p"] and i not in hit][:60] if idx == 0 else []
+        return st, [rs[i] for i in sorted(hit)], smp
+    calls, applied, nstruct, nsweep, nsum, nrej, badrecs, sample = 0, set(), 0, 0, 0, 0, [], []
+    for st, bad, smp in par(ctx, judge_file, list(enumerate(files)), ctx.workers):
+        calls += st["calls"]
+        applied |= st["applied"]
+        nstruct, nsweep, nsum, nrej = nstruct + st["structured"], nsweep + st["sweep"], nsum + st["summaries"], nrej + st["rejected"]
+        badrecs += bad
+        sample = sample or smp
     never = [i for i in range(len(progs)) if i not in applied]
     if never:
         classes = sorted(set("%s:%s" % (progs[i]["k"], "+".join(m["n"] for m in progs[i]["p"])) for i in never))
@@ -295,25 +316,20 @@ def run(ctx):
         ctx.note(msg)
     ctx.cov["evaluations"] += calls
     ctx.cov["distinct_nontrivial"] += len([i for i in applied if progs[i]["p"]])
-    ctx.cov["inputs_structured"] = sum(rec["n"] for rec in recs if not rec["sw"])
-    ctx.cov["inputs_sweep"] = sum(rec["n"] for rec in recs if rec["sw"])
+    ctx.cov["inputs_structured"], ctx.cov["inputs_sweep"] = nstruct, nsweep
     ctx.cov["worker_deaths"] = stats["worker_deaths"]
     ctx.cov["exhaustive"] = True
     ctx.cov["rule"] = ("every mutation program of Inputs.tla to depth %d (TLC state machine InputsGen) x every seed it "
                        "applies to x every entry point of the kind x {strict, permissive}; non-trivial = a non-empty "
                        "program that applied to at least one real seed; plus %d seeded byte-level sweep inputs; every "
                        "observation judged by TLC (Trace_Inputs.tla)" % (depth, sweep))
-
-    # U3: TLC judges the summaries ------------------------------------------------------------
-    rej = judge(ctx, recs, nest, chunks=1 if quick else ctx.workers, label="sum")
-    ctx.log("summaries judged: %d, rejected groups: %d" % (len(recs), len(rej)))
-    ctx.cov["traces_validated_against_impl"] += len(recs)
+    ctx.log("summaries judged: %d, rejected groups: %d" % (nsum, nrej))
+    ctx.cov["traces_validated_against_impl"] += nsum
     cands = []
-    if rej:
+    if badrecs:
         # re-run the rejected programs / sweep seeds input by input and judge each input
-        bad = sorted(set(x[0] for x in rej))
-        only = {"progs": sorted(set(recs[i]["i"] for i in bad if not recs[i]["sw"])),
-                "seeds": sorted(set("%s/%s" % (recs[i]["k"], recs[i]["seed"]) for i in bad if recs[i]["sw"]))}
+        only = {"progs": sorted(set(r["i"] for r in badrecs if not r["sw"])),
+                "seeds": sorted(set("%s/%s" % (r["k"], r["seed"]) for r in badrecs if r["sw"]))}
         onlyf = ctx.path("only.json")
         with open(onlyf, "w") as f:
             json.dump(only, f)
@@ -356,7 +372,7 @@ def run(ctx):
                    reproduce=lambda path, body: lookup.get(json.dumps(body["sig"], sort_keys=True), False), limit=60)
 
     if not quick:
-        selftest(ctx, recs, nest)
+        selftest(ctx, sample, nest)
 
 
 def selftest(ctx, recs, nest):
